@@ -37,7 +37,7 @@ uint8_t st_wq_try_push(void *q, MSG *m)
   /* contract of the real queue (C30): elements are non-null (uSWSR_Ptr_Buffer::push asserts it; a null element is the ring's "empty" mark) */
   VF_ASSERT(m != 0, "C25: only non-null elements are pushed into the inter-thread queue");
 #endif
-  int32_t id = (m && m >= msgs && m <= msgs + NMSG) ? (int32_t)(m - msgs) : -1;
+  int32_t id = (m && __CPROVER_POINTER_OBJECT(m) == __CPROVER_POINTER_OBJECT(msgs)) ? (int32_t)(m - msgs) : -1;
   if (id < 0) the_sentinel = m;
   fifo[q_tail++] = id; if (n_pushed < QMAX) { pushed[n_pushed] = id; cx_pushed[n_pushed] = id; } n_pushed++;
   return 1;
